@@ -423,6 +423,15 @@ func runWholeSession(c *Ctx, idx int) error {
 	}
 	kind := otKinds[idx%3]
 	grand := &blockLog{r: r.Fork(), skipKey: true}
+	if idx%4 == 1 {
+		// garbler bits all 1 (every label sent in clear is L0 ^ R); the configured entropy source
+		// hands out at most 32 bytes per call
+		for k := range x {
+			x[k] = true
+		}
+		grand.maxRead = 32
+		c.Hist("mode:whole-session:garbler-input-all-ones:source-reads-at-most-32-bytes")
+	}
 	gOT := &recOT{OT: kind.mk(r.Fork())}
 	eOT := &recOT{OT: kind.mk(r.Fork())}
 	res := runSession(circ, bitsToBig(x), bitsToBig(y), grand, gOT, eOT, 0, r.Fork(), nil, 60*time.Second)
@@ -549,6 +558,9 @@ func runStreamSession(c *Ctx, idx int) error {
 	gConn := p2p.NewConn(ga)
 	eConn := p2p.NewConn(ea)
 	grand := &blockLog{r: r.Fork(), skipKey: true}
+	if idx%2 == 1 {
+		grand.maxRead = 32 // a source that hands out at most 32 bytes per call
+	}
 	if idx%6 == 5 {
 		// the configured entropy source fails once: at the read of R (1) or of an input label
 		grand.failAt = 1 + (idx/6)%3
@@ -690,6 +702,9 @@ func runC04(c *Ctx) error {
 		if err := runStreamSession(c, i); err != nil {
 			return err
 		}
+	}
+	if err := runC04Doors(c); err != nil {
+		return err
 	}
 	sha2pcC04(c)
 	return nil
